@@ -39,6 +39,7 @@ type seqCfg struct {
 	home       string
 	phased     bool // a few writes per process life, then GC (engine seq, mix full)
 	collide    bool       // engine seq, mix collide: groups of keys forced onto one key hash (C13)
+	safe       bool       // mix collide-safe: colliding keys are set and read once first, then only overwritten and read; restarts keep the tree dump
 	groups     [][]string // the groups (set when the key pool is drawn, or by a replay)
 }
 
@@ -531,6 +532,9 @@ func (s *seqStore) doGC(c *Ctx, bkt, begin, end, noGCDays int, merge, pretend bo
 }
 
 func (s *seqStore) restart(c *Ctx, r *RNG, mode int) bool {
+	if s.cfg.safe {
+		mode = 0
+	}
 	if s.cfg.collide && mode != 0 {
 		// C13 quantifies over "tree dump present or rebuilt from hints": hint files and the collision table stay
 		mode = 3
@@ -680,7 +684,8 @@ func engineSeq(c *Ctx) {
 		seqReplay(c, base)
 		return
 	}
-	collide := c.mix == "collide"
+	collide := c.mix == "collide" || c.mix == "collide-safe"
+	safe := c.mix == "collide-safe"
 	if collide {
 		c.mix = "full"
 	}
@@ -692,6 +697,7 @@ func engineSeq(c *Ctx) {
 		cfg := genSeqCfg(r, home)
 		if collide {
 			cfg.collide = true
+			cfg.safe = safe
 			cfg.nb, cfg.served = 1, []int{0}
 			if cfg.height > 3 {
 				cfg.height = 3
@@ -810,8 +816,32 @@ func seqCase(c *Ctx, r *RNG, id string, cfg seqCfg) {
 			}
 			gs = append(gs, strings.Join(ks, ","))
 		}
-		c.line("groups %s", strings.Join(gs, ";"))
+		if cfg.safe {
+			c.line("groups %s safe", strings.Join(gs, ";"))
+		} else {
+			c.line("groups %s", strings.Join(gs, ";"))
+		}
 		c.count("case.collide")
+		if cfg.safe {
+			// every colliding key is written and then read once: from then on the collision table knows all of them
+			for _, g := range cfg.groups {
+				for _, k := range g {
+					_, v := genValue(r, len(k), 200)
+					s.doSet(c, k, v, 0, 0, 1500000000)
+				}
+			}
+			for _, g := range cfg.groups {
+				for _, k := range g {
+					s.doGet(c, k)
+				}
+			}
+		}
+	}
+	inGroup := map[string]bool{}
+	for _, g := range cfg.groups {
+		for _, k := range g {
+			inGroup[k] = true
+		}
 	}
 	nops := 30 + r.Intn(90)
 	if c.tier == "thorough" {
@@ -904,6 +934,9 @@ func seqCase(c *Ctx, r *RNG, id string, cfg seqCfg) {
 		k := keys[r.Intn(len(keys))]
 		ts += uint32(r.Intn(3))
 		p := r.Intn(100)
+		if cfg.safe && inGroup[k] && p >= 42 && p < 60 {
+			p = 70 // no delete / incr of a colliding key in the safe mix: a read instead
+		}
 		switch {
 		case p < 42:
 			// a record must fit a data file with room to spare ("limits from a few records"): a record
@@ -925,7 +958,7 @@ func seqCase(c *Ctx, r *RNG, id string, cfg seqCfg) {
 			}
 			flag := []uint32{0, 1, 0x10, 0x204, uint32(r.Next()) & 0xFFFEFFFF}[r.Intn(5)]
 			rev := 0
-			if r.Chance(30) {
+			if r.Chance(30) && !(cfg.safe && inGroup[k]) {
 				rev = []int{1, 2, 3, 5, 10, 1000, 1000000}[r.Intn(7)]
 			}
 			tsv := ts
@@ -1154,6 +1187,7 @@ func seqReplay(c *Ctx, base string) {
 			installGroups(groups)
 			if s != nil {
 				s.cfg.collide = true
+				s.cfg.safe = len(l.args) > 1 && l.args[1] == "safe"
 			}
 			c.line("%s", l.raw)
 		case "set":
